@@ -97,3 +97,26 @@ GHOSTS = {"ev_invalid": ev_invalid, "ev_reason": ev_reason, "ev_indicator": ev_i
 def install(ex) -> None:
     for k, h in GHOSTS.items():
         ex.library["ghost." + k] = h
+
+
+def _key_view(v):
+    if isinstance(v, SV) and v.view and "key" in v.view:
+        return v.view["key"]
+    raise Unsupported("key_* ghost on a string without a key view")
+
+
+def key_is_package(ex, st, args, kwargs, fn):
+    return [(st, SV(mk_b(_key_view(args[0])[0]), "bool"))]
+
+
+def key_is_numeric(ex, st, args, kwargs, fn):
+    is_p, is_num, n = _key_view(args[0])
+    return [(st, SV(mk_b(z3.And(is_num, z3.Not(is_p))), "bool"))]
+
+
+def key_number(ex, st, args, kwargs, fn):
+    from pyvc.values import mk_i
+    return [(st, SV(mk_i(_key_view(args[0])[2]), "int"))]
+
+
+GHOSTS.update({"key_is_package": key_is_package, "key_is_numeric": key_is_numeric, "key_number": key_number})
